@@ -28,7 +28,7 @@ Verdict(e) ==
        ELSE IF Clean(t) /\ ( \/ e.obs.err
                              \/ SetOf(e.obs.lic) # Expected(t, "L")
                              \/ SetOf(e.obs.cop) # Expected(t, "C")
-                             \/ (e.form # "file" /\ SetOf(e.obs.con) # Expected(t, "K"))     \* lint does not report contributors
+                             \/ (e.form \notin {"file", "sidecar"} /\ SetOf(e.obs.con) # Expected(t, "K"))     \* lint does not report contributors
                              \/ (e.obs.has # "na" /\ e.obs.has # (IF Expected(t, "L") \cup Expected(t, "C") \cup Expected(t, "K") # {} THEN "yes" ELSE "no")) )
             THEN "C12.visible-tags-read-hidden-tags-not"
        ELSE ""
